@@ -98,6 +98,7 @@ var jwtParams = map[string]jwtParam{
 	// header
 	"alg":      {"Signature Algorithm", sigAlg},
 	"typ":      {"Type", str},
+	"cty":      {"Content Type", str},
 	"jku":      {"JWK Set URL", str},
 	"jwk":      {"JSON Web Key", str},
 	"kid":      {"Key Id", str},
@@ -118,7 +119,7 @@ var jwtParams = map[string]jwtParam{
 
 // jwtHeaderOrder and jwtClaimOrder are the orders in which registered header parameters (RFC 7515 section 4.1) and
 // registered claims (RFC 7519 section 4.1) are displayed; jwtParamOrder is both.
-var jwtHeaderOrder = []string{"alg", "typ", "jku", "jwk", "kid", "x5u", "x5c", "x5t", "x5t#S256"}
+var jwtHeaderOrder = []string{"alg", "typ", "cty", "jku", "jwk", "kid", "x5u", "x5c", "x5t", "x5t#S256"}
 var jwtClaimOrder = []string{"aud", "exp", "iat", "iss", "jti", "nbf", "sub"}
 var jwtParamOrder = append(append([]string{}, jwtHeaderOrder...), jwtClaimOrder...)
 
